@@ -244,6 +244,22 @@ def vocabulary(ctx, spec, ops, lang, canon, sub, sup, replay):
     # (they coincide when the links mirror each other; where they do not, that is reported by the mirror check)
     links = {(s, t) for t in canon for s in sub[t] if s in uri} | {(t, s) for t in canon for s in sup[t] if s in uri}
     for closure in (False, True):
+        # the whole vocabulary graph against the model (Tfv/Model/Vocab.lean), without labels, under random other switches
+        if len(canon) <= 60:
+            import graphgen as GG
+            bits = GG.gen_bits(ctx.rng)
+            bits = bits[:8] + "T" + bits[9:]        # with_canonical_types: add_taxonomy asserts it
+            try:
+                gm = GG.make_graph(lang, bits, with_transitive_closure=closure)
+                gm.add_vocabulary()
+                bmap = {}
+                ns = str(lang.namespace)
+                vtext = "ok root - out - " + " ".join(sorted("(" + " ".join(GG.node_str(x, ns, bmap) for x in t) + ")" for t in gm))
+            except Exception as ex:  # noqa
+                vtext = "E:X:" + type(ex).__name__
+            ctx.case(f"(gvocab {bits} {'T' if closure else 'F'})", vtext, dict(replay, closure=closure, bits=bits), nontrivial=len(canon) >= 3,
+                key=("vocab", str(replay.get("listed")), replay.get("top"), replay.get("bottom"), closure, bits, id(spec)), cmp=GG.iso)
+            ctx.count("vocabulary_graphs_compared")
         g = TransformationGraph(lang, with_canonical_types=True, with_transitive_closure=closure)
         g.add_vocabulary()
         got = set()
